@@ -83,6 +83,16 @@ def do_request(app, req):
     if req['kind'] == 'cart':
         headers['Cookie'] = threads_app.cart_cookie(['apple'])       # every client of this kind holds an EQUAL cart
     env = make_environ(req['method'], req['target'], headers=headers, body=req.get('body', '').encode())
+    if req.get('recycled'):
+        # the server keeps one environ dict per connection and re-fills it for the next request: whatever the application
+        # (or werkzeug) left in there from the previous request is still in it
+        old = make_environ('GET', '/hi/previous?id=77', headers={'Accept': 'text/plain'})
+        old['sim.ids'], old['sim.guids'], old['sim.ds'], old['sim.req_objs'] = [], [], [], []
+        call_app(app, old, validate=False)
+        old.update(env)
+        for k in [k for k in old if k.startswith('HTTP_') and k not in env]:
+            del old[k]
+        env = old
     env['sim.ids'] = []
     env['sim.guids'] = []
     env['sim.ds'] = []
@@ -300,6 +310,8 @@ class C12(Check):
         for t in range(nthreads):
             r = make_request(same or ops.choice(KINDS)[0], ids[t], ops.choice(NAMES), ops.choice(ACCEPTS))
             r['name'] = 'T%d' % t
+            if ops.random() < 0.12:
+                r['recycled'] = True
             reqs.append(r)
         sch = S['sched']
         ins_share = 0.5
